@@ -2,7 +2,7 @@
    scotland / cfer(-batch) / mpls count reaches without crashing satisfies the Gregory invariant (Proofs/Conserve.v). *)
 From Coq Require Import ZArith List Bool String Lia ZifyBool PArith.
 From Droop Require Import Model.KernelBase Model.Str Model.Arith Model.Prelude Model.State Model.Prims Model.RulesGregory
-  Model.Election Proofs.CmdMeta Proofs.Zlike Proofs.Gregory Proofs.Forward Proofs.Conserve.
+  Model.Election Proofs.CmdMeta Proofs.Zlike Proofs.Gregory Proofs.Forward Proofs.Status Proofs.Conserve.
 Import ListNotations.
 Open Scope Z_scope.
 
@@ -153,6 +153,35 @@ Corollary count_tally_is_standing r pr fuel s k : greg_rule r -> wf_profile pr -
 Proof.
   intros H1 H2 H3 H4. destruct (count_conserves r pr fuel s k H1 H2 H3 H4) as (G & _ & _).
   split; [exact (g_nd _ _ _ _ _ G)|]. split; [exact (g_wfb _ _ _ _ _ G)|]. split; [exact (g_tally _ _ _ _ _ G)|exact (g_pend _ _ _ _ _ G)].
+Qed.
+
+
+(* ---- seats are never over-committed (wigm, wigm-prf(-batch), scotland) ---- *)
+Definition seat_rule (r : rule) : Prop := r = RWigm \/ r = RWigmPrf \/ r = RScotland.
+
+Lemma pre2_init (pr : profile) : wf_profile pr ->
+  Pre2 A S ZL (S * ballot_total pr) (zero_votes (init_state A cfg pr)).
+Proof.
+  intros Hwf. split; [exact (pre_init pr Hwf)|]. destruct (init_state_shape pr) as (Ec & _ & _).
+  unfold zero_votes. cbn [cands set_cands]. intros c Hc. apply in_map_iff in Hc. destruct Hc as (c0 & <- & Hc0). rewrite Ec in Hc0.
+  apply in_map_iff in Hc0. destruct Hc0 as (p & <- & _). cbn [cst with_vote init_cand]. destruct (pc_withdrawn p); discriminate.
+Qed.
+
+Theorem count_seats r pr fuel s k : seat_rule r -> wf_profile pr -> cf_nballots cfg = ballot_total pr ->
+  exec (@crashed A) fuel (count_cmd A cfg r) (init_state A cfg pr) = Some (s, k) -> k <> Abort ->
+  nlen (electeds A s) <= cf_nseats cfg.
+Proof.
+  intros Hr Hwf Hnbt He Hk.
+  assert (HB: S * ballot_total pr = cf_nballots cfg * S) by (rewrite Hnbt; lia).
+  set (Bv := S * ballot_total pr) in *.
+  assert (Ht: triple est (@crashed A) (fun s0 => s0 = init_state A cfg pr) (count_cmd A cfg r)
+                (SeatsOK A S ZL cfg Bv) (SeatsOK A S ZL cfg Bv) (SeatsOK A S ZL cfg Bv)).
+  { unfold count_cmd. eapply t_seq with (M := Pre2 A S ZL Bv).
+    - apply t_do. intros s0 ->. exact (pre2_init pr Hwf).
+    - eapply t_seq.
+      + destruct Hr as [ -> | [ -> | -> ] ]; cbn [rule_cmd]; [apply wigm_seats|apply wigm_prf_seats|apply scotland_seats]; assumption.
+      + apply t_do_nc. intros s0 [[H Hc] Hn] Hcf. split; [split; [apply gh_log; assumption|exact Hcf]|]. rewrite cands_log. exact Hn. }
+  specialize (Ht fuel _ s k eq_refl He). destruct k; try (destruct Ht as [_ Hn]; exact Hn). congruence.
 Qed.
 
 End Count.
